@@ -17,7 +17,13 @@ value names = sorted flat names):
                              messages stay in farm._cluster)
  ['run', k]                  a worker takes the k-th message of farm._cluster,
                              executes it (worker.Context.run) and answers
-                             (Hand._res) -- always success
+                             (Hand._res) -- success
+ ['fail', k]                 the same worker, but the algorithm raises after its
+                             inputs were loaded and before it updates its data
+                             set: the worker answers suc=False as
+                             pl/worker/cluster.py does (Hand._res -> complete,
+                             purge); the step reports the primary table as it
+                             is after the reply ('store_now')
 
 Fakes (outside world only): in-memory AE packages whose run() stores a
 canonical text of (value, target, external input, inputs as loaded); the db
@@ -131,7 +137,11 @@ class FSM:
 dawgie.context.fsm = FSM()
 
 # ---- the algorithms: deterministic, output = injective text of what was loaded
-ENV = {'root_in': {}, 'vid': {}, 'tid': {}, 'loaded': []}
+ENV = {'root_in': {}, 'vid': {}, 'tid': {}, 'loaded': [], 'fail': False}
+
+
+class AlgorithmFailed(RuntimeError):
+    pass
 
 
 def _run(self, ds, ps):
@@ -144,6 +154,8 @@ def _run(self, ds, ps):
         ins.append(json.loads(c) if c else None)
     ENV['loaded'].append(ins)
     base = ENV['root_in'].get((tag, tn), 0) if not ins else 0
+    if ENV['fail']:
+        raise AlgorithmFailed(tag)
     for sv in self._svs:
         for k in list(sv.keys()):
             name = '.'.join([tag, sv.name(), k])
@@ -268,6 +280,27 @@ def _run_case(case, rt):
         if ev[0] == 'tick':
             F.dispatch()
             return None
+        if ev[0] == 'fail':
+            if ev[1] >= len(F._cluster):
+                return None
+            m = F._cluster.pop(ev[1])
+            reset_inputs()
+            ENV['loaded'] = []
+            ENV['fail'] = True
+            ctx = W.Context(('h', 1), 'REV')
+            fac = getattr(__import__(m.factory[0], fromlist=[m.factory[1]]), m.factory[1])
+            raised = False
+            try:
+                ctx.run(fac, 0, m.jobid, m.runid, m.target, {})
+            except AlgorithmFailed:
+                raised = True
+            finally:
+                ENV['fail'] = False
+            # pl/worker/cluster.py: any other exception -> response with suc=False and no values
+            F.Hand._res(M.make(typ=M.Type.response, inc=m.target, jid=m.jobid, rid=m.runid, suc=False,
+                               tim={'started': 'x'}))
+            return {'failed': [nid[m.jobid], tid[m.target]], 'raised': raised, 'store_now': dump_store(),
+                    'loaded': ENV['loaded'][0] if ENV['loaded'] else None}
         if ev[0] == 'run':
             if ev[1] >= len(F._cluster):
                 return None
@@ -284,8 +317,21 @@ def _run_case(case, rt):
                     wrote.append([int(r), tid[tn], vid[rest], bool(isnew)])
             F.Hand._res(M.make(typ=M.Type.response, inc=m.target, jid=m.jobid, rid=m.runid, suc=True,
                                tim={'started': 'x'}, val=nv))
-            return {'wrote': wrote, 'loaded': ENV['loaded'][0] if ENV['loaded'] else None}
+            return {'wrote': wrote, 'ran': [nid[m.jobid], tid[m.target]], 'loaded': ENV['loaded'][0] if ENV['loaded'] else None}
         raise ValueError(ev)
+
+    def dump_store():
+        store = []
+        keys = dawgie.db.shelve._prime_keys()
+        raw = list(DBI().tables.prime)
+        for full, rk in zip(keys, raw):
+            r, tn, rest = full.split('.', 2)
+            if rest not in vid:
+                continue
+            val = dawgie.db.util.decode(DBI().tables.prime[rk])
+            store.append([int(r), tid[tn], vid[rest], json.loads(val.content) if val.content else None])
+        store.sort(key=lambda e: e[:3])
+        return store
 
     def quiescent():
         return not F._cluster and not F._jobs and not any(N[t].get('todo') or N[t].get('doing') for t in tags)
@@ -308,6 +354,8 @@ def _run_case(case, rt):
             return ['chg', sorted(rng.sample(roots, rng.randint(1, min(2, len(roots))))),
                     sorted(rng.sample(range(1, len(tnames) + 1), rng.randint(1, len(tnames))))]
         if F._cluster and rng.random() < 0.6:
+            if rng.random() < case.get('pfail', 0.0):
+                return ['fail', rng.randrange(len(F._cluster))]
             return ['run', rng.randrange(len(F._cluster))]
         return ['tick']
 
@@ -330,16 +378,7 @@ def _run_case(case, rt):
         obs.append(observe(extra))
         step += 1
     # the primary table at the end (metric state vectors left out)
-    store = []
-    keys = dawgie.db.shelve._prime_keys()
-    raw = list(DBI().tables.prime)
-    for full, rk in zip(keys, raw):
-        r, tn, rest = full.split('.', 2)
-        if rest not in vid:
-            continue
-        val = dawgie.db.util.decode(DBI().tables.prime[rk])
-        store.append([int(r), tid[tn], vid[rest], json.loads(val.content) if val.content else None])
-    store.sort(key=lambda e: e[:3])
+    store = dump_store()
     return {'graph': graph, 'events': events, 'obs': obs, 'store': store, 'desc': desc,
             'quiescent': quiescent(), 'root_in': sorted([nid[k[0]], tid[k[1]], v] for k, v in ENV['root_in'].items()),
             'digest_standin_agrees': Sums.agree}
